@@ -24,10 +24,23 @@ def gen_cases(rng, tier):
             h = gens.hist(rng, max_faces=4, frac_p=0.1)
             hi = 12 if tier == "quick" else (40 if len(h) <= 3 else 14)
             m = rng.choice([-2, -1, 0, 0, 1, 1, 2, 2, 3, 4, 5, rng.randint(6, hi)])
-            cases.append({"kind": "matmul_h", "n": m, "h": h, "m2": rng.randint(1, 4)})
+            c = {"kind": "matmul_h", "n": m, "h": h, "m2": rng.randint(1, 4)}
+            if rng.random() < 0.3:
+                # the repetition count in other numeric types: integral ones are accepted, non-integral rejected
+                c["ntyp"] = rng.choice(["float", "Fraction", "bool", "Decimal"])
+                if c["ntyp"] == "bool":
+                    c["n"] = rng.choice([0, 1])
+                elif rng.random() < 0.5:
+                    c["nfrac"] = rng.choice([[1, 2], [5, 2], [-1, 2], [7, 3], [1, 3], [23999, 1000]])
+            cases.append(c)
         elif r == 2:
             dice, _ = pools.gen_pool(rng, max_dice=3, max_faces=3)
-            cases.append({"kind": "matmul_p", "n": rng.choice([-1, 0, 1, 2, 3]), "dice": dice})
+            c = {"kind": "matmul_p", "n": rng.choice([-1, 0, 1, 2, 3]), "dice": dice}
+            if rng.random() < 0.3:
+                c["ntyp"] = rng.choice(["float", "Fraction", "Decimal"])
+                if rng.random() < 0.5:
+                    c["nfrac"] = rng.choice([[1, 2], [5, 2], [-1, 2], [7, 3], [23999, 1000]])
+            cases.append(c)
         elif r == 3 or r == 4:
             # nested / permuted construction incl. zero-total and empty dice
             args = []
@@ -57,13 +70,37 @@ def _args_py(args):
     return out
 
 
+def _n_py(case):
+    from decimal import Decimal
+    n = case["n"]
+    t = case.get("ntyp")
+    if t is None:
+        return n
+    v = Fraction(*case["nfrac"]) if "nfrac" in case else Fraction(n)
+    if t == "bool":
+        return bool(n)
+    if t == "float":
+        return float(v)
+    if t == "Decimal":
+        return Decimal(v.numerator) / Decimal(v.denominator)
+    return v
+
+
 def impl_run(case):
     from dyce import H, P
     k = case["kind"]
+    if "nfrac" in case:
+        try:
+            x = H(gens.py_hist_dict(case["h"])) if k == "matmul_h" else pools.py_pool(case["dice"])
+            res = _n_py(case) @ x
+            res2 = x @ _n_py(case)
+            return {"accepted": repr(res)[:80]}
+        except (ValueError, TypeError) as e:
+            return {"exc": type(e).__name__}
     try:
         if k == "matmul_h":
             h = H(gens.py_hist_dict(case["h"]))
-            res = case["n"] @ h
+            res = _n_py(case) @ h
             extra = {}
             if case["n"] >= 1:
                 m2 = case["m2"]
@@ -73,7 +110,7 @@ def impl_run(case):
             return {"ok": hist_items(res), "total": res.total, "htotal": h.total, **extra}
         if k == "matmul_p":
             p = pools.py_pool(case["dice"])
-            res = case["n"] @ p
+            res = _n_py(case) @ p
             return {"ok": [hist_items(h) for h in res], "total": res.total}
         if k == "mkp":
             args = _args_py(case["args"])
@@ -81,7 +118,12 @@ def impl_run(case):
             q = P(*[args[i] for i in case["perm"]])
             return {"ok": [hist_items(h) for h in p], "total": p.total, "perm_eq": p == q and not (p != q),
                     "perm_same_order": [hist_items(h) for h in q] == [hist_items(h) for h in p],
-                    "index_ok": all(hist_items(p[i]) == hist_items(h) for i, h in enumerate(p)), "len": len(p)}
+                    "index_ok": all(hist_items(p[i]) == hist_items(h) for i, h in enumerate(p)), "len": len(p),
+                    # a slice (any step) is the pool of the sliced dice: same canonical order as building it afresh
+                    "slices_ok": all([hist_items(h) for h in p[sl]] == [hist_items(h) for h in P(*tuple(p)[sl])]
+                                     and p[sl] == P(*tuple(p)[sl]) and p[sl].total == P(*tuple(p)[sl]).total
+                                     for sl in (slice(None, None, -1), slice(None, None, 2), slice(None, None, -2), slice(1, None),
+                                                slice(-1, 0, -1), slice(0, 0), slice(None, 1), slice(-2, None)))}
         if k == "sum_h":
             p = pools.py_pool(case["dice"])
             return {"ok": hist_items(p.h()), "total": p.total, "htotal": p.h().total}
@@ -99,6 +141,8 @@ def _cargs(args):
 
 def coq_check(case, r):
     k = case["kind"]
+    if "nfrac" in case:
+        return None     # non-integral repetition count: decided by the oracle (rejected with TypeError)
     if "ok" not in r and "exc" not in r:
         return "MISMATCH"
     if k == "matmul_h":
@@ -157,6 +201,8 @@ def _flatten(args):
 
 def oracle(case):
     k = case["kind"]
+    if "nfrac" in case:
+        return {"exc": "TypeError"}
     if k == "matmul_h":
         if case["n"] < 0:
             return {"exc": "ValueError"}
@@ -207,7 +253,7 @@ def agree(case, r, o):
             return False
         return all(r.get(x, True) for x in ("split_ok", "pool_ok", "rmatmul_ok"))
     if k == "mkp":
-        return r["total"] == o["total"] and r["perm_eq"] and r["perm_same_order"] and r["index_ok"] and r["len"] == len(o["ok"])
+        return r["total"] == o["total"] and r["perm_eq"] and r["perm_same_order"] and r["index_ok"] and r.get("slices_ok", True) and r["len"] == len(o["ok"])
     if k == "sum_h":
         return r["total"] == o["total"] and (not o["ok"] or r["htotal"] == o["total"])
     return r["total"] == o["total"]
